@@ -473,7 +473,10 @@ static void check_others(Ctx& x, const Snap& a, const Snap& b, const std::string
 	if (a.nv != b.nv) viol(x, "setter:" + setter + ":changes-vertex-count", vf::strf("Set %s changed the vertex count %u -> %u", setter.c_str(), a.nv, b.nv));
 }
 
-static void run_setter_case(const Case& c, Stats& st) {
+// presave: the model is saved once (result discarded) just before the setter call, so that the setter meets a model
+// that has already been through Save (derived blocks such as the Oblivion tangent-space extra data exist).
+// reloaded: receives the geometry read back from the file written after the setter call.
+static void run_setter_case(const Case& c, Stats& st, bool presave = false, Snap* reloaded = nullptr) {
 	const Ver& v = g_vers[c.ver];
 	Ctx x{st, c, v.name};
 	Mesh m = make_small_mesh(c.V, c.arr, c.trimask, c.uv, c.nrm);
@@ -508,6 +511,7 @@ static void run_setter_case(const Case& c, Stats& st) {
 	Snap before = snapshot(nif, shape);
 	check_sizes(x, before, "before-setter");
 
+	if (presave) s1::save(nif, true);
 	const std::string& S = c.setter;
 	std::string why;
 	// what the getter must return afterwards (filled by the branch taken)
@@ -604,6 +608,7 @@ static void run_setter_case(const Case& c, Stats& st) {
 	if (do_reload) st.add("save_loads");
 	if (rs) {
 		Snap r = snapshot(re, rs);
+		if (reloaded) *reloaded = r;
 		check_sizes(x, r, "reload-after-" + S);
 		x.record = false;
 		bool kept = check_value(r, true, false);
@@ -634,7 +639,33 @@ static void run_case(const Case& c, Stats& st) {
 	else if (c.fam == "setter") {
 		Mesh m = make_small_mesh(c.V, c.arr, c.trimask, c.uv, c.nrm);
 		g_unit_distinct.insert(mesh_hash(c, m));
-		run_setter_case(c, st);
+		Snap ra, rb;
+		run_setter_case(c, st, false, &ra);
+		// 5. the file written after the setter call does not depend on whether the model had been saved before the call:
+		//    history [create, populate, Save, set, Save] must read back exactly like [create, populate, set, Save]
+		if (ra.ok && !g_no_reload && !(c.base == 2 && g_eye_save_dies[c.ver])) {
+			Stats scratch;
+			run_setter_case(c, scratch, true, &rb);
+			st.add("save_loads", 2);
+			if (rb.ok) {
+				st.add("setter_presave_histories_compared");
+				std::string d;
+				if (ra.nv != rb.nv) d += "vertex-count ";
+				if (!vec_same(ra.verts, rb.verts)) d += "positions ";
+				if (!vec_same(ra.uvs, rb.uvs)) d += "uvs ";
+				if (!vec_same(ra.norms, rb.norms)) d += "normals ";
+				if (!vec_same(ra.tans, rb.tans)) d += "tangents ";
+				if (!vec_same(ra.bits, rb.bits)) d += "bitangents ";
+				if (!vec_same(ra.cols, rb.cols)) d += "colours ";
+				if (!vec_same(ra.eye, rb.eye)) d += "eyedata ";
+				if (!vec_same(ra.tris, rb.tris)) d += "triangles ";
+				if (std::memcmp(&ra.bounds, &rb.bounds, sizeof(BoundingSphere)) != 0) d += "bounds ";
+				if (!d.empty()) {
+					Ctx x{st, c, g_vers[c.ver].name};
+					viol(x, "setter:" + c.setter + ":file-depends-on-earlier-save", "Set " + c.setter + " then Save+Load reads back different { " + d + "} when the model had been saved once before the setter call");
+				}
+			}
+		}
 	}
 	else vf::fatal("unknown family " + c.fam);
 }
